@@ -238,7 +238,9 @@ func modelWith(x *openfgav1.Userset, restr []*openfgav1.RelationReference, withC
 			"l": {TypeName: openfgav1.ConditionParamTypeRef_TYPE_NAME_LIST, GenericTypes: []*openfgav1.ConditionParamTypeRef{{TypeName: openfgav1.ConditionParamTypeRef_TYPE_NAME_STRING}}},
 		}},
 			// every parameter type the lexer knows: scalar, list<T> and map<T> for each T
-			"alltypes": {Name: "alltypes", Expression: "s_int < 10", Parameters: allParamTypes()}}
+			"alltypes": {Name: "alltypes", Expression: "s_int < 10", Parameters: allParamTypes()},
+			// a name that differs from "c" only in case: the documented order (by name) must still be a total one
+			"C": {Name: "C", Expression: "p > 1", Parameters: map[string]*openfgav1.ConditionParamTypeRef{"p": {TypeName: openfgav1.ConditionParamTypeRef_TYPE_NAME_INT}}}}
 	}
 	return m
 }
